@@ -550,16 +550,30 @@ def _paths(e):
     if k == "match":
         if e.get("src") == "ForLoopDesugar":
             raise Unrecognised("loop in path enumeration")
+        if e.get("src") == "TryDesugar":
+            inner = try_inner(e)
+            out = []
+            for p in _paths(inner):
+                if p.exit != "value":
+                    out.append(p)
+                    continue
+                out.append(Path(p.trace + [("try-err", inner)], None, "ret-err"))
+                out.append(Path(p.trace + [("try-ok", inner)], inner, "value"))
+            return out
         out = []
-        prior = []
-        for a in e["arms"]:
-            pre = [("arm", e["scrut"], a["pat"], list(prior))]
-            if "guard" in a:
-                pre += [("cond", f["expr"], f["val"]) for f in _cond_frames(a["guard"], True)]
-            else:
-                prior.append(a["pat"])
-            for q in _paths(a["body"]):
-                out.append(Path(pre + q.trace, q.value, q.exit))
+        for sp in _paths(e["scrut"]):
+            if sp.exit != "value":
+                out.append(sp)
+                continue
+            prior = []
+            for a in e["arms"]:
+                pre = sp.trace + [("arm", e["scrut"], a["pat"], list(prior))]
+                if "guard" in a:
+                    pre += [("cond", f["expr"], f["val"]) for f in _cond_frames(a["guard"], True)]
+                else:
+                    prior.append(a["pat"])
+                for q in _paths(a["body"]):
+                    out.append(Path(pre + q.trace, q.value, q.exit))
         return out
     if k == "loop":
         raise Unrecognised("loop in path enumeration")
